@@ -160,7 +160,7 @@ def generate(rng, tier):
         with_ = ops[:pos] + [fail] + ops[pos:]
         cases.append(Case(["W %s %s" % (sp.s(), ops_line(ops)), "W %s %s" % (sp.s(), ops_line(with_))], kind, {"pos": pos, "kind": kind}))
 
-    for k in range(2500 if thorough else 450):
+    for k in range(2500 * TH if thorough else 450):
         sp = rng.choice(specs)
         kind = rng.choice(KINDS)
         if kind == "width_end":
